@@ -148,3 +148,22 @@ static std::string first_diff(const std::string &a, const std::string &b) {
 static std::string export_xml(hwloc_topology_t t, unsigned long flags = 0) {
   char *x = NULL; int l = 0; if (hwloc_topology_export_xmlbuffer(t, &x, &l, flags) < 0) return std::string("\x01""EXPORT-FAILED"); std::string s(x); hwloc_free_xmlbuffer(t, x); return s;
 }
+
+// Open finding F-C18-a (known_findings.json): a memory object whose CPU-side parent was removed or merged away keeps that parent's complete_cpuset;
+// the XML importer recomputes it, so a reload differs in exactly that field.  Harnesses that compare a topology with its XML reload exclude it by
+// construction: when the topology shows the stale field, the complete_cpuset of memory objects is masked in both dumps (counted as excluded).
+static bool memchild_ccs_stale(hwloc_topology_t t) {
+  for (auto o : all_objs(t)) if (hwloc_obj_type_is_memory(o->type)) { hwloc_obj_t p = o->parent; while (p && hwloc_obj_type_is_memory(p->type)) p = p->parent; if (p && !hwloc_bitmap_isequal(o->complete_cpuset, p->complete_cpuset)) return true; }
+  return false;
+}
+static std::string mask_mem_ccs(const std::string &dump) {
+  std::string out; size_t i = 0;
+  while (i < dump.size()) {
+    size_t e = dump.find('\n', i); if (e == std::string::npos) e = dump.size(); std::string line = dump.substr(i, e - i); i = e + 1;
+    size_t f = line.find_first_not_of(' ');
+    if (f != std::string::npos && (line.compare(f, 9, "NUMANode ") == 0 || line.compare(f, 9, "MemCache ") == 0)) { size_t a = line.find(" ccs={"); if (a != std::string::npos) { size_t b = line.find('}', a); if (b != std::string::npos) line.replace(a, b + 1 - a, " ccs=*"); } }
+    out += line; out += '\n';
+  }
+  return out;
+}
+
